@@ -592,7 +592,7 @@ def check(ex, ctx):
             return "printed lines out of order: %r" % (got,)
     for j in (ctx.joiners if "AudioEventsJoinerWorker" not in tolerate else ()):
         try:
-            sr_, sw_, ch_, frames = _read_wav(j._verif_file)
+            sr_, sw_, ch_, frames = _read_saved(j._verif_file, sr, sw, ch)
         except Exception as exc:
             return "joined-events file is not a readable wav: %r" % (exc,)
         sil = b"\0" * (round(cfg.get("silence", 0.1) * sr) * sw * ch)
